@@ -52,8 +52,17 @@ pub fn handle_replace(
         enable_plural_variants,
     };
 
+    // `create_simple_plan` records every path relative to its first root, but the preview and apply
+    // resolve plan paths against the working directory. Hand it absolute roots and put the first
+    // root back in front of what it stripped (paths below other roots come back absolute already).
+    let paths: Vec<PathBuf> = paths
+        .into_iter()
+        .map(|p| std::path::absolute(&p).unwrap_or(p))
+        .collect();
+    let first_root = paths.first().cloned();
+
     // Create the plan using simple regex/literal replacement
-    let plan = if no_regex {
+    let mut plan = if no_regex {
         // Literal string replacement
         create_simple_plan(pattern, replacement, paths, &options, false)?
     } else {
@@ -63,6 +72,25 @@ pub fn handle_replace(
         // Create plan with regex replacement
         create_simple_plan(pattern, replacement, paths, &options, true)?
     };
+
+    if let Some(root) = first_root {
+        let put_back = |p: &PathBuf| -> PathBuf {
+            if p.is_absolute() {
+                p.clone()
+            } else if p.as_os_str().is_empty() {
+                root.clone() // the root itself is the file
+            } else {
+                root.join(p)
+            }
+        };
+        for hunk in &mut plan.matches {
+            hunk.file = put_back(&hunk.file);
+        }
+        for rename in &mut plan.paths {
+            rename.path = put_back(&rename.path);
+            rename.new_path = put_back(&rename.new_path);
+        }
+    }
 
     // Check for large changes
     if !large && !yes {
